@@ -20,6 +20,11 @@ ProfCore == [Base EXCEPT !.classes = {"A", "T"}, !.methods = {"pt", "n", "trks",
 
 ProfTiny == Base
 
+\* C01: list-of-lists (and list) columns whose INNER sequence is flattened (SelectMany) inside a per-object Select:
+\* where the inner vector is declared and pushed decides the shape of the column
+ProfInnerMany == [Base EXCEPT !.classes = {"A", "T"}, !.methods = {"pt", "trks", "vals"}, !.selectmany = TRUE, !.where = FALSE,
+                    !.cmpops = {}, !.consts = {}, !.rows = {"seq", "seqseq"}, !.must = {"SelectMany"}]
+
 \* C03: every terminal form x element kind, implicit and explicit (AsROOTTTree) trees
 \* (the floating constant is a WHOLE number, 2.0: its column must still be a floating column)
 ProfSchema == [Base EXCEPT !.methods = {"pt", "n", "m", "ok"}, !.consts = {<<"int", 1, 1>>, <<"double", 2, 1>>},
